@@ -936,21 +936,53 @@ def check_json_family(run, prop, replay=None):
         kind = c[:1]
         if kind not in ("E", "U") or im.startswith("SKIP"):
             continue
-        if c.startswith("EO "):
-            # oneOf types: not modelled; the round trip is judged against the sent value (C06 only)
-            if prop != "C06":
-                continue
+        if c.startswith("EO ") or c.startswith("UO "):
+            # oneOf types (Model/OneOf.v): the encoding, the value decoded from it, and the decoder's verdict on documents
             n_eval += 1
-            kinds["oneof"] = kinds.get("oneof", 0) + 1
-            ikv = parse_kv(im)
+            ikv, mkv = parse_kv(im), parse_kv(mo)
             f = c.split(" ")
-            ctx = [l for l in heads.get(f[1], []) if l.startswith("D ")] + ["JO %s %s" % (f[1], f[2])]
-            iv = ikv.get("impl", "?")
-            ij = canon_json_hex(iv) if re.fullmatch(r"[0-9a-f]+", iv) else "UNPARSEABLE"
-            if ij.startswith("UNPARSEABLE") or "__DUPLICATE_KEYS__" in ij:
-                propm.append((i, c, im, mo, ctx, "encoding of a oneOf value is not valid JSON (%s)" % iv[:80]))
-            elif canon_dump(ikv.get("back")) != canon_dump(f[3]):
-                propm.append((i, c, im, mo, ctx, "decoding the encoding of a oneOf value does not return the value"))
+            ctx = [l for l in heads.get(f[1], []) if l.startswith("D ")] + [l for l in cases if l.startswith("JO %s %s " % (f[1], f[2]))]
+            if mo.startswith("ERROR") or "model" not in mkv:
+                corr.append((i, c, im, mo, ctx, "model failed"))
+                continue
+            iv, mv = ikv.get("impl", "?"), mkv["model"]
+            if c.startswith("EO "):
+                kinds["oneof-encode"] = kinds.get("oneof-encode", 0) + 1
+                i_ok = re.fullmatch(r"[0-9a-f]+", iv) is not None
+                ij = canon_json_hex(iv) if i_ok else iv
+                mj = canon_json_hex(mv) if mv != "MarshalErr" else mv
+                iback = ikv.get("back", "?")
+                iback = "Err" if iback.startswith("Err") else canon_dump(iback)
+                mback = mkv.get("back", "?")
+                mback = "Err" if mback.startswith("Err") else canon_dump(mback)
+                if i_ok:
+                    distinct.add(hashlib.sha256((c + ij).encode()).digest()[:8])
+                if ij != mj or iback != mback:
+                    corr.append((i, c, im, mo, ctx, "oneOf encode/round-trip observation differs from the model"))
+                if prop in ("C06", "C07") and (not i_ok or ij.startswith("UNPARSEABLE") or "__DUPLICATE_KEYS__" in ij):
+                    propm.append((i, c, im, mo, ctx, "encoding of a oneOf value is not valid JSON (%s)" % iv[:80]))
+                elif prop == "C06" and iback != canon_dump(f[3]):
+                    # (the corpus only holds values whose variant is the one the decoder must choose: a required key of
+                    #  its own without discriminator, an accepted discriminator name with one)
+                    propm.append((i, c, im, mo, ctx, "decoding the encoding of a oneOf value does not return the value"))
+            else:
+                exp = (re.search(r"#exp=(\S+)", c) or [None, "?"])[1]
+                kinds["oneof-decode:" + exp] = kinds.get("oneof-decode:" + exp, 0) + 1
+                i_err, m_err = iv.startswith("Err"), mv.startswith("Err")
+                distinct.add(hashlib.sha256((c + iv[:40]).encode()).digest()[:8])
+                if i_err != m_err:
+                    corr.append((i, c, im, mo, ctx, "oneOf decode outcome differs from the model"))
+                elif not i_err and canon_dump(iv) != canon_dump(mv):
+                    corr.append((i, c, im, mo, ctx, "oneOf decoded value differs from the model"))
+                if prop == "C08":
+                    # strictness at the oneOf level: no discriminator name the switch lists / no variant's required key => rejected
+                    jo = [l for l in ctx if l.startswith("JO ")]
+                    hasdisc = bool(jo) and jo[-1].split(" ")[3] != "-"
+                    must_reject = ("kindtype", "notobject", "norequired", "wrongtype") + (("unknownkind", "nokind", "kindnull") if hasdisc else ())
+                    if exp in must_reject and not i_err:
+                        propm.append((i, c, im, mo, ctx, "a oneOf document that must be rejected (%s) was accepted" % exp))
+                    if exp == "valid" and i_err:
+                        propm.append((i, c, im, mo, ctx, "a valid oneOf document was rejected"))
             continue
         n_eval += 1
         ikv, mkv = parse_kv(im), parse_kv(mo)
